@@ -334,7 +334,12 @@ func (eng *Engine) VerifyFunc(f *ssa.Function) (rep *FuncReport) {
 		}
 		bindResults(fc, res, rvars)
 		for _, c := range fc.Ensures {
-			env := ex.envFor(s, nil, rvars)
+			// locals of the returning frame are visible (after parameters and results)
+			var rfr *Frame
+			if len(s.frames) > 0 {
+				rfr = s.top()
+			}
+			env := ex.envFor(s, rfr, rvars)
 			env.pkg = ex.pkgOfKey(fc, f)
 			g := ex.evalWith(env, c)
 			ob := ex.oblige(s, "ensures", c.Label, c.Tags, g, c.Src, fmt.Sprintf("%s:%d", filepath.Base(c.File), c.Line))
